@@ -1,4 +1,4 @@
-CONSTANTS H = 2 W = 2 FixMarks = TRUE FixWide = TRUE FixDamage = TRUE AllowAmbiguous = FALSE
+CONSTANTS H = 2 W = 2 FixMarks = TRUE FixWide = TRUE FixDamage = FALSE AllowAmbiguous = FALSE
 Alphabet <- AFull
 INIT Init
 NEXT Next
